@@ -27,15 +27,16 @@ type TierSpec struct {
 }
 
 type HarnessSpec struct {
-	Pkg      string            `json:"pkg"`
-	Entry    string            `json:"entry"`
-	Quick    TierSpec          `json:"quick"`
-	Thorough TierSpec          `json:"thorough"`
-	Reach    []string          `json:"reach"`
-	Native   bool              `json:"native_replay"` // counterexamples and witnesses are replayed natively
-	Solver   string            `json:"solver"`
-	Kernels  map[string]string `json:"kernels"`
-	What     string            `json:"what"`
+	Pkg       string            `json:"pkg"`
+	Entry     string            `json:"entry"`
+	Quick     TierSpec          `json:"quick"`
+	Thorough  TierSpec          `json:"thorough"`
+	Reach     []string          `json:"reach"`
+	Native    bool              `json:"native_replay"` // counterexamples and witnesses are replayed natively
+	Solver    string            `json:"solver"`
+	Kernels   map[string]string `json:"kernels"`
+	What      string            `json:"what"`
+	NoWitness bool              `json:"no_witness"`
 }
 
 type PropSpec struct {
@@ -195,7 +196,7 @@ func cmdCheck(args []string) int {
 			inconc = append(inconc, r.h.Entry+": "+m)
 		}
 		// native witness validation of passing paths
-		if r.h.Native && !*noNative && len(ex.Witnesses) > 0 {
+		if r.h.Native && !r.h.NoWitness && !*noNative && len(ex.Witnesses) > 0 {
 			okN, bad := nativeRun(r.h, ex.Witnesses, r.ts.Bounds, false)
 			validated += okN
 			for _, b := range bad {
@@ -248,7 +249,7 @@ func cmdCheck(args []string) int {
 		}
 		st := map[string]interface{}{"harness": r.h.Pkg + "." + r.h.Entry, "what": r.h.What, "paths": ex.Paths, "infeasible_paths": ex.Infeasible,
 			"decisions": ex.Decisions, "ssa_instructions": ex.Steps, "assertions": ex.Asserts, "assertions_decided_by_solver": ex.AssertsSMT,
-			"bounds": map[string]interface{}{"preemptions": r.ts.P, "timer_firings": r.ts.T, "step_budget_per_path": ex.B.MaxSteps, "harness": r.ts.Bounds},
+			"bounds":               map[string]interface{}{"preemptions": r.ts.P, "timer_firings": r.ts.T, "step_budget_per_path": ex.B.MaxSteps, "harness": r.ts.Bounds},
 			"max_preemptions_used": ex.MaxPreempt, "solver": ex.SolverStats, "reach": ex.Reached, "seconds": r.sec,
 			"functions_encoded": ex.FnList(), "models_hit": keys(ex.Models), "exhaustive": !ex.Budget && len(ex.Inconclusive) == 0}
 		cov = append(cov, st)
@@ -321,7 +322,18 @@ func nativeRun(h HarnessSpec, pins []map[string]interface{}, bounds map[string]i
 		os.WriteFile(filepath.Join(dir, fmt.Sprintf("pin%04d.json", i)), b, 0o644)
 	}
 	rel := strings.TrimPrefix(h.Pkg, "gjvharness/")
-	cmd := exec.Command("go", "test", "-v", "-vet=off", "-count=1", "-run", "^TestReplay$", "-timeout", "300s", "./"+rel)
+	args := []string{"test", "-v", "-vet=off", "-count=1", "-run", "^TestReplay$", "-timeout", "300s"}
+	if len(h.Kernels) > 0 {
+		ov := map[string]map[string]string{"Replace": {}}
+		for virt, real := range h.Kernels {
+			ov["Replace"][filepath.Join(repoDir(), virt)] = filepath.Join(verifDir(), real)
+		}
+		ob, _ := json.Marshal(ov)
+		os.WriteFile(filepath.Join(dir, "overlay.json"), ob, 0o644)
+		args = append(args, "-tags", "verif", "-overlay", filepath.Join(dir, "overlay.json"))
+	}
+	args = append(args, "./"+rel)
+	cmd := exec.Command("go", args...)
 	cmd.Dir = harnessDir()
 	cmd.Env = append(os.Environ(), "GOFLAGS=-mod=mod", "GOPROXY=off", "GOSUMDB=off", "GOTOOLCHAIN=local",
 		"VERIF_PIN_DIR="+dir, "VERIF_ENTRY="+h.Entry, "GOCACHE="+goCache())
